@@ -23,6 +23,7 @@ func init() {
 	register("C06", checkC06)
 	register("C11", checkC11)
 	register("C05", checkC05)
+	register("C01", checkC01)
 }
 
 func main() {
